@@ -645,6 +645,8 @@ def situation(c, lines):
             order.pop()
         elif w[0] == "RM" and order:
             k = int(w[1])
+            if k < len(order) - 1:
+                swaps += 1          # remove_maximal_cell brings the cell to the end by vine swaps
             removed_after_swap = removed_after_swap or swaps > 0
             if k < len(order):
                 order.pop(k)
